@@ -39,7 +39,7 @@ def floors(tier):
         "classes": {"C17:keep": 300, "C17:delete": 300, "C17:with-replacement": 300, "C17:touching": 100, "C17:at-edges": 100, "C17:off-grid": 300,
                     "C17:both-lists-rejected": 50, "C17:beyond-duration-rejected": 50, "C17:split:empty-secondary-tier": 30,
                     "C17:split:tg-true": 30, "C17:split:tg-tiername": 30, "C17:split:noPartial": 30, "C17:empty-delete-list": 30,
-                    "C17:split:nameStyle:None": 10, "C17:split:nameStyle:append": 10, "C17:split:nameStyle:append_no_i": 10, "C17:split:nameStyle:label": 10},
+                    "C17:reused-handle": 200, "C17:unsorted-list": 50, "C17:split:nameStyle:None": 10, "C17:split:nameStyle:append": 10, "C17:split:nameStyle:append_no_i": 10, "C17:split:nameStyle:label": 10},
     }
 
 
@@ -464,7 +464,14 @@ def workload(tier, rng, shard, nshards, work):
             lst = interval_list(rng, n, rate, on_grid)
             marker = W.encode([7], width)
             rep = rng.choice([None, gen_.generateSilence, lambda d, _r=rate, _m=marker: _m * round(_r * d), gen_.buildSineWaveGenerator(rng.choice([100, 440]), rng.choice([None, 50]))])
-            af = wave.open(fn, "r")
+            if k % 20 == 0 or k % 3 == 0:
+                af = wave.open(fn, "r")  # otherwise the handle of the previous call is used again (it has been read from)
+            else:
+                REC.cls("C17:reused-handle")
+            if rng.random() < 0.3:
+                rng.shuffle(lst)
+                if lst != sorted(lst):
+                    REC.cls("C17:unsorted-list")
             r = rng.random()
             if r < 0.45:
                 call(audio.readFramesAtTimes, af, lst, None, rep)
@@ -474,7 +481,8 @@ def workload(tier, rng, shard, nshards, work):
                 call(audio.readFramesAtTimes, af, lst or [(0.0, n / rate / 2)], [(0.0, n / rate / 3)], rep)
             else:
                 call(audio.readFramesAtTimes, af, [(0.0, n / rate + rng.choice([1 / rate, 0.5]))], None, rep)
-            af.close()
+            if rng.random() < 0.15:
+                call(audio.readFramesAtTimes, af, None, rng.choice([None, []]), rep)
             if k % 5 == 0:
                 s, e = sorted((rng.randrange(0, n + 1) / rate, rng.randrange(0, n + 1) / rate)) if on_grid else sorted((rng.uniform(0, n / rate), rng.uniform(0, n / rate)))
                 call(audio.extractSubwav, fn, os.path.join(str(work), "sub.wav"), s, e)
